@@ -15,7 +15,11 @@ the line of their original; c' is cleaned by a fresh Cleaner in a NEW process (a
 has cleaned anything) and by fresh Cleaners #2, #3, #4 of the child after it has cleaned c), `file` (the FILE entry
 point: a text is written to a path and Cleaner.clean_file is called on it 1-3 times; the bytes at the path after
 every call are compared with the model's cleanFile and with what clean_content gives for the lines read from the
-same text, written back the way clean_file writes them; one line as a string against a one-element list).
+same text, written back the way clean_file writes them; one line as a string against a one-element list), `seam`
+(ONE multi-line string whose line ends and next line starts could together look like an item — a hex token before a line
+starting with '::', address / MAC / host fragments, password keys at the end of a line, keywords and patterns at the
+break, with LF, CRLF, \x0b, \x0c at the seam — through clean_content(text), compared with the model's cleanString, with
+the list of its lines, with clean_file on the same text and with a split=False command storing it).
 Oracle (implementation only): two seeds that disagree on a case; an output line whose unique marker is
 missing, duplicated or out of order; an all-blank result returned or stored; a caller's object (allow list,
 filters cache, config, rm_conf, content list, no_obfuscate list) that differs from the deep copy taken before
@@ -384,9 +388,71 @@ def run_file(case, tmp):
     return {"file": [digest(x) for x in states], "content": [digest(x) for x in via], "maps": maps, "single": single, "order": order}
 
 
+def raw_split(t):
+    """a text cut behind every '\\n' and nowhere else, terminators kept (list elements are lines as they are)"""
+    parts = t.split("\n")
+    return [x + "\n" for x in parts[:-1]] + ([parts[-1]] if parts[-1] else [])
+
+
+def run_seam(case, tmp):
+    """one multi-line STRING, the list of its lines, the file holding it, a split=False command printing it"""
+    cfg, call, text = case["cfg"], case["call"], case["text"]
+    kw = lambda: {"no_obfuscate": list(call["no_obfuscate"]), "no_redact": bool(call["no_redact"]),
+                  "allowlist": None if call["allowlist"] is None else dict(call["allowlist"])}
+    res = {}
+    cl = c09.mk_cleaner(cfg)
+    try:
+        res["string"] = cl.clean_content(text, **kw())
+    except Exception as e:
+        res["string"] = c09.RAISED
+    res["smaps"] = maps_json(cl)
+
+    def as_list(t):
+        c2 = c09.mk_cleaner(cfg)
+        try:
+            out = c2.clean_content(raw_split(t), **kw())
+        except Exception:
+            return c09.RAISED, None
+        return ("".join(out) if out else None), maps_json(c2)
+    res["list"], res["lmaps"] = as_list(text)
+    tr = text.replace("\r\n", "\n").replace("\r", "\n")
+    res["list_textmode"] = as_list(tr)[0] if tr != text else res["list"]
+    d = os.path.join(tmp, "s%d" % case["id"])
+    os.makedirs(d)
+    path = os.path.join(d, "the_spec")
+    with open(path, "wb") as fh:
+        fh.write(text.encode("utf-8"))
+    c3 = c09.mk_cleaner(cfg)
+    try:
+        c3.clean_file(path, **kw())
+        res["file"] = open(path, "rb").read().decode("utf-8", "replace") if os.path.exists(path) else None
+    except Exception:
+        res["file"] = c09.RAISED
+    res["glue"] = "<not run>"
+    if case.get("glue"):
+        # a command collected with split=False keeps its output as ONE string all the way to write()
+        with open(path, "wb") as fh:
+            fh.write(text.encode("utf-8"))
+        tag = "C10s%d" % case["id"]
+        pt = RegistryPoint(no_obfuscate=list(call["no_obfuscate"]), no_redact=bool(call["no_redact"]))
+        S = type("S" + tag, (SpecSet,), {"p": pt})
+        I = type("I" + tag, (S,), {"p": simple_command("/bin/cat %s" % path, split=False, context=HostContext)})
+        b = dr.Broker()
+        b[HostContext] = HostContext(root=d)
+        b["cleaner"] = c09.mk_cleaner(cfg)
+        try:
+            r = write_result(I.p(b), os.path.join(d, "out", "stored"))
+            res["glue"] = r["stored"] if r["write"] == "S" else "<%s>" % r["write"]
+        except Exception as e:
+            res["glue"] = "<%s>" % type(e).__name__
+    return res
+
+
 def run_case(case, tmp, pristine=None):
     if case["kind"] == "echo":
         return run_echo(case, pristine)
+    if case["kind"] == "seam":
+        return run_seam(case, tmp)
     if case["kind"] == "file":
         return run_file(case, tmp)
     if case["kind"] == "hist":
@@ -647,6 +713,12 @@ def glue_allow(case):
 
 def model_lines(case):
     kind = case["kind"]
+    if kind == "seam":
+        call = case["call"]
+        return [c09.sha_line(set([case["cfg"]["fqdn"]]) | c09.hextets(re.split(r"[\n\r\x0b\x0c]", case["text"]))),
+                c09.init_line(case["cfg"]),
+                "cleans\t%s\t%d\t%s\t%s" % (c09.enc_l(call["no_obfuscate"]), call["no_redact"], c09.enc_allow(call["allowlist"]),
+                                             enc(case["text"])), "map"]
     if kind == "file":
         call = case["call"]
         ls = [c09.sha_line(set([case["cfg"]["fqdn"]]) | c09.hextets(case["text"].split("\n") if len(case["text"]) < 100000 else [])),
@@ -704,6 +776,9 @@ def model_maps(ans):
 def model_result(case, ans):
     """ans = the driver's answers to model_lines(case)"""
     kind = case["kind"]
+    if kind == "seam":
+        return {"string": None if ans[2] == "None" else dec(ans[2].split("\t")[1]) if ans[2].startswith("S\t") else "<%s>" % ans[2],
+                "smaps": model_maps(ans[3])}
     if kind == "file":
         st = []
         for a in ans[3:3 + case["repeats"]]:
@@ -731,6 +806,8 @@ def tie_view(case, res):
     res = dict((k, v) for k, v in res.items() if k != "globals")
     if kind == "file":
         return {"file": res["file"], "maps": res["maps"]}
+    if kind == "seam":
+        return {"string": res["string"], "smaps": res["smaps"]}
     if kind == "hist":
         return {"outs": res["outs"], "maps": res["maps"]}
     if kind == "glue":
@@ -775,6 +852,28 @@ def order_violation(case, res):
     kind = case["kind"]
     if res.get("globals"):
         return "containers of insights.cleaner.* differ from their state at import after this case: %s" % ", ".join(res["globals"])
+    if kind == "seam":
+        text, out = case["text"], res["string"]
+        if out == c09.RAISED:
+            return "clean_content(text) raised"
+        if out is not None:
+            if out.count("\n") != text.count("\n"):
+                return "clean_content(text): %d line breaks went in, %d came out: %r -> %r" % (text.count("\n"), out.count("\n"), text, out)
+            v = subsequence_violation(text.split("\n"), out.split("\n"))
+            if v:
+                return "clean_content(text): %s (%r -> %r)" % (v, text, out)
+        # the routes agree — up to the NUMBERING of IPv4 / host substitutes, which follows the order items are met (bottom-up
+        # for a list) — wherever the string is not dropped or filtered as ONE line (a pattern / allow list acts on the whole string)
+        plain = case["call"]["allowlist"] is None and (case["call"]["no_redact"] or not any(p in text for p in case["cfg"]["patterns"]))
+        if plain:
+            a, b = canon_numbering(out or None, res["smaps"]), canon_numbering(res["list"], res["lmaps"])
+            if a != b:
+                return "clean_content(text) differs from cleaning its lines one by one: %r vs %r (text %r)" % (out, res["list"], text)
+            if res["file"] != res["list_textmode"]:
+                return "clean_file leaves %r, cleaning the lines of the same text gives %r (text %r)" % (res["file"], res["list_textmode"], text)
+            if res["glue"] not in ("<not run>", out if out else "<E2>"):
+                return "a split=False command stores %r, clean_content(text) gives %r (text %r)" % (res["glue"], out, text)
+        return None
     if kind == "file":
         if res["order"]:
             return res["order"]
@@ -861,12 +960,27 @@ def order_violation(case, res):
     return subsequence_violation(lines, out)
 
 
+def canon_numbering(out, maps):
+    """substitutes of the NUMBERED obfuscators written as their originals (longest first), so that two routes that met the
+    items in a different order can be compared"""
+    if not isinstance(out, str) or maps is None:
+        return out
+    pairs = [(o, s_) for k in ("ip", "hostname") for o, s_ in maps[k]]
+    for o, s_ in sorted(pairs, key=lambda p: -len(p[1])):
+        out = out.replace(s_, "<<%s>>" % o)
+    return out
+
+
 def finding_of(case):
-    """listed finding a failure on this case is an instance of — decided on the INPUT alone (none is listed for C10)"""
+    """listed finding a failure on this case is an instance of — decided on the INPUT alone"""
+    if case["kind"] == "seam" and password_key_at_break(case["text"]) and "password" not in case["call"]["no_obfuscate"]:
+        return "password-across-line-break"
     return None
 
 
 def case_lines(case):
+    if case["kind"] == "seam":
+        return case["text"].split("\n")
     if case["kind"] == "file":
         return case["text"][:2000].split("\n")
     if case["kind"] == "echo":
@@ -947,11 +1061,60 @@ def gen_file(rng, i, long_line=False):
     return case
 
 
+SEAMS = [
+    # (end of a line, start of the next line): together they could look like ONE item
+    ("metric 256", "::1 dev lo"), ("via abcd", "::5 x"), ("x fe80", "::1"), ("y 2001:db8:", ":1 z"), ("fe80::1", "fe80::2 q"), ("nexthop 1", "::"),
+    ("ip 10.1.2.", "3 z"), ("ip 10.1.2", ".3 z"), ("10.1.2.3", "10.1.2.4 w"), ("9.9.9", "9.9.9.9"),
+    ("mac aa:bb:cc:", "dd:ee:ff x"), ("aa:bb:cc:dd:ee:ff", "11:22:33:44:55:66 m"), ("52:54:00:aa:bb", ":cc"),
+    ("host web01.example", ".org x"), ("h web01", ".example.org"), ("my", "host x"), ("web01.example.org", "db.example.org h"), ("x.example", "org"),
+    ("password: s3cr3t", "next"), ("ldap_password=Zm9vYmFy", "next line"), ("bind_password = \"abc\"", "tail"),
+    ("password", "nextline"), ("password:", "value2"), ("password *", "rest of"), ("password =", " value"), ("password --md5", "$1$abc"),
+    ("x secret", "secret y"), ("a Zorg", "Zorg b"), ("sec", "ret"), ("DROP", "keep"), ("keep", "DROP x"), ("DR", "OP"), ("plain", "plain"),
+]
+SEAM_CHARS = ["\n", "\n", "\n", "\r\n", "\x0b\n", "\n\x0c", "\x0b", "\x0c", "\n\n"]
+
+
+def password_key_at_break(text):
+    """INPUT-ONLY predicate of the listed finding password-across-line-break: a password key with nothing but separators
+    between it and a line break"""
+    return bool(re.search(r"password[A-Za-z0-9_]*(?:[ \t\x0b\x0c\r:\"=*]|--md5+)*\n", text))
+
+
+def gen_seam(rng, i):
+    fqdn = rng.choice(["web01.example.org", "myhost.example.org"])
+    obf = 1 if rng.random() < 0.95 else 0
+    cfg = {"fqdn": fqdn, "obfuscate": obf, "ipv6": 1 if rng.random() < 0.9 else 0, "hostname": 1 if obf and rng.random() < 0.9 else 0,
+           "mac": 1 if rng.random() < 0.9 else 0, "keywords": rng.choice([None, ["secret", "Zorg"], ["secret"]]),
+           "patterns": rng.choice([[], [], [], ["DROP"]])}
+    n = rng.choice([2, 2, 3, 4, 5])
+    pairs = [rng.choice(SEAMS) for _ in range(n - 1)]
+    text, new_line = "", True
+    for j in range(n):
+        start = pairs[j - 1][1] if j else rng.choice(["first", "::1 lead", "tcp"])
+        end = pairs[j][0] if j < n - 1 else rng.choice(["last", "password", "10.1.2.3", "fe80"])
+        mark = "@%d@ " % j if new_line else ""            # one marker per PHYSICAL line
+        text += "%s %s%s %s" % (start, mark, rng.choice(["mid", "lo", "10.9.8.7", "aa:bb:cc:00:11:22", "fe80::9", "up"]), end)
+        if j < n - 1:
+            sep = rng.choice(SEAM_CHARS)
+            text += sep
+            new_line = "\n" in sep
+    if rng.random() < 0.7:
+        text += rng.choice(["\n", "\n", "\r\n"])
+    al = None
+    if rng.random() < 0.08:
+        al = {"@1@": 1, "mid": 2}
+    return {"id": i, "kind": "seam", "cfg": cfg, "text": text, "glue": 1 if rng.random() < 0.3 else 0,
+            "call": {"no_obfuscate": rng.sample(ALL_OBF, 1) if rng.random() < 0.15 else [], "no_redact": 1 if rng.random() < 0.3 else 0,
+                     "allowlist": al}}
+
+
 def gen_any(rng, i):
     k = rng.random()
-    if k < 0.10:
+    if k < 0.08:
+        return gen_seam(rng, i)
+    if k < 0.16:
         return gen_file(rng, i)
-    if k < 0.20:
+    if k < 0.24:
         return gen_echo(rng, i)
     if k < 0.50:
         return gen_hist(rng, i)
@@ -979,7 +1142,11 @@ def run(chk):
     quick = chk.tier == "quick"
     n_cases = 700 if quick else 3000
     seeds = list(range(12 if quick else 256))
-    chk.rule = ("six kinds of case, each starting from fresh Cleaners. file (10% + one case with a line over 1 MiB): a text of 0-8 "
+    chk.rule = ("seven kinds of case, each starting from fresh Cleaners. seam (8%): a text of 2-5 lines glued from pairs (end of a line, "
+                "start of the next) that together could look like one item, separated by LF / CRLF / \\x0b / \\x0c, is cleaned as ONE "
+                "string, as the list of its lines, as a file and (30%) as the output of a split=False command; the string result must "
+                "keep the number of line breaks and the markers, equal the model's cleanString under every seed, and agree with the "
+                "other routes up to the numbering of IPv4 / host substitutes. file (10% + one case with a line over 1 MiB): a text of 0-8 "
                 "marker-prefixed lines (long keywords / host names that shrink, short addresses that grow, blank lines, lines dropped by "
                 "patterns or a small allow list, all lines dropped, empty file, symbolic link) with and without trailing newline is "
                 "written to a path and clean_file is called 1-3 times; the bytes after every call are compared with the model and with "
@@ -1007,6 +1174,10 @@ def run(chk):
         "the order of the filters dict a provider hands to clean_content is stated by the harness from core/filters.py "
         "(registration order, set arguments sorted, implementation before registry point) and checked by the comparison",
         "Keyword.mapping() is read from a set: compared sorted",
+        "clean_content(text) with one string treats the whole text as ONE line (a pattern or the allow list drops or keeps it as "
+        "a whole; numbering follows the order items are met in the whole text): the routes are compared only where no pattern "
+        "hits and no allow list is given, and up to the numbering of IPv4 / host substitutes; that no recogniser looks across a "
+        "line break is a property of the live patterns, checked by the seam stream, not a theorem",
         "lines of a file = Python text-mode lines (universal newlines): clean_file opens the file with open(path, 'r'), so "
         "'\\n', '\\r\\n' and a lone '\\r' end a line and are handed on as '\\n'; the model (universalNewlines before readlines) and "
         "the oracle's independent route cut there and nowhere else",
@@ -1059,6 +1230,13 @@ def run(chk):
             chk.count("hist:issued", sum(len(v) for v in r0["maps"][-1].values()))
             if c["allowlists"]:
                 chk.count("hist:shared-allowlist")
+        elif c["kind"] == "seam":
+            chk.count("seam:lines=%d" % (c["text"].count("\n") + 1))
+            chk.count("seam:string=" + ("None" if r0["string"] is None else "text"))
+            if fid:
+                chk.count("seam:password-key-at-break")
+            if c.get("glue"):
+                chk.count("seam:split=False command")
         elif c["kind"] == "file":
             t0, t1 = c["text"], r0["file"][0] if r0["file"] else None
             n1 = t1["len"] if isinstance(t1, dict) else len(t1) if isinstance(t1, str) and not t1.startswith("<") else None
@@ -1096,7 +1274,11 @@ def run(chk):
         for s in seeds:
             v = order_violation(c, res[s][i])
             if v:
-                chk.failure(v, {"case": c, "seeds": [s]}, finding=fid)
+                # the listed seam finding excuses only what it explains: the string route masking text of the next line
+                # (routes differ, a marker masked) — never a changed number of line breaks or a file / list difference
+                ex = fid if c["kind"] != "seam" or v.startswith("clean_content(text) differs") or "has no source line" in v \
+                    or v.startswith("a split=False command") else None
+                chk.failure(v, {"case": c, "seeds": [s]}, finding=ex)
                 break
         if fid is None:
             tied.append(i)
